@@ -137,7 +137,10 @@ class Number(Element):
         )
 
     def set_value_from_message(self, msg):
-        self.set_value(values.str_to_num(msg.value, self._definition.format))
+        value = values.str_to_num(msg.value, self._definition.format)
+        if value is None:
+            raise ValueError("Number value is missing")
+        self.set_value(value)
 
     def check_value(self, value):
         try:
